@@ -76,6 +76,54 @@ def run(ctx):
     sf_fns = fb.find(pred=lambda f: SLOTFUTEX_REC.search(f.record or "") and f.has_cfg())
     ctx.floor("C02.slotfutex", len(sf_fns), 20, "SlotFutex member function instances")
 
+    # ------------------------------------------------------------ R6 version operands are 16 bits wide
+    # the slot word is (waiters:16 | version:16) and versions wrap modulo 2^16; a version that is carried in a
+    # wider type stops wrapping (65535 + 1 == 65536): at the wrap the waker's "version still current?" test fails
+    # and an exchange installs a phantom waiter bit
+    def type_of(fn, d):
+        d0 = d
+        d = strip_cast(d)
+        if isinstance(d0, dict) and d0.get("k") == "cast":
+            return d0.get("t")
+        if not isinstance(d, dict):
+            return None
+        if d.get("k") == "p":
+            i = d.get("i")
+            return fn.params[i]["type"] if i is not None and i < len(fn.params) else None
+        if d.get("k") == "l":
+            return fn.vars.get(str(d.get("id")), {}).get("type")
+        if d.get("k") == "e":
+            ev = fn.events.get(d.get("id"))
+            return ev.get("rtype") or ev.get("type") if ev else None
+        return None
+    n6 = 0
+    for fn in sf_fns:
+        for bid, b in fn.blocks.items():
+            if "cond" not in b:
+                continue
+            from bsa.graph import cond_atoms
+            atom, _ = cond_atoms(b["cond"], True)
+            c = L.cmp_parts(atom)
+            if not c or c[0] not in ("==", "!="):
+                continue
+            tl, tr = type_of(fn, c[1]), type_of(fn, c[2])
+            if tl is None or tr is None or "unsigned short" not in (tl, tr):
+                continue
+            n6 += 1
+            ctx.ob("C02.R6a", "%s@%s" % (L.short(fn), b.get("cond_line")), tl == tr, "%s:%s" % (fn.file, b.get("cond_line")),
+                   "a 16-bit slot version is compared with a value carried in '%s': after 65535 the wider value is 65536, "
+                   "never equal to the wrapped version 0, so the waker decides 'already advanced' and skips the wake-up" %
+                   (tr if tl == "unsigned short" else tl), site="%s@version-width" % L.short(fn))
+        for _, ev in fn.all_events():
+            if ev["e"] == "call" and ev.get("name") == "exchange" and ev.get("rec", "").startswith("std::") and "unsigned int" in ev.get("rec", ""):
+                n6 += 1
+                t = type_of(fn, ev["args"][0])
+                ctx.ob("C02.R6b", "%s@%s" % (L.short(fn), ev["line"]), t == "unsigned short", "%s:%s" % (fn.file, ev["line"]),
+                       "the word exchanged into the 32-bit slot word must be a 16-bit version (waiter half zero); it is "
+                       "carried as '%s', so version 65535 + 1 installs the waiter bit instead of version 0" % t,
+                       site="%s@version-width" % L.short(fn))
+    ctx.floor("C02.R6", n6, 12, "version comparisons / exchanges in SlotFutex")
+
     # ------------------------------------------------------------ R1 sleepers
     sleepers = [f for f in sf_fns if direct_calls(f, WAIT_RE)]
     ctx.floor("C02.R1", len(sleepers), 3, "functions that futex-wait on a slot word")
